@@ -166,6 +166,11 @@ class CompSeq(SymSeq):
             if not hasattr(root, '_nonempty'):
                 root._nonempty = self._nonempty
             return root._nonempty
+        if isinstance(el, SBool) and isinstance(i.t, z3.ExprRef) and hasattr(self.src, 'kvc_len'):
+            # exists an index in range whose (selected) element is true
+            ln = sint(self.src.kvc_len()).t
+            ct = cond.t if isinstance(cond, SBool) else z3.BoolVal(bool(cond))
+            return SBool(z3.Exists([i.t], z3.And(i.t >= 0, i.t < ln, ct, el.t)))
         raise OutOfSubset('any() over a comprehension of unknown length with a symbolic element')
 
     def kvc_truth(self, interp):
@@ -601,3 +606,17 @@ class NumText:
 
     def __init__(self, v):
         self.v = v
+
+
+class StarTuple:
+    """(*a, x, *b, ..) where some starred operand has unknown length: kept as its parts [(starred?, value), ..]"""
+
+    def __init__(self, parts):
+        self.parts = parts
+
+    def kvc_isinstance(self, interp, cls):
+        classes = cls if isinstance(cls, tuple) else (cls,)
+        return any(c is tuple for c in classes)
+
+    def __repr__(self):
+        return 'StarTuple(' + ', '.join(('*' if st else '') + repr(v) for st, v in self.parts) + ')'
